@@ -6,9 +6,6 @@ From BPGen Require Import GenC09.
 Import ListNotations.
 Open Scope Z_scope.
 
-Lemma message_item_import_crashes : message_item_outcome IImport = Crash AttributeError.
-Proof. vm_compute. reflexivity. Qed.
-
 (* beyond CPython's digit limit EVERY decimal literal / width crashes the token rule *)
 Theorem int_literal_crashes_beyond_limit tv :
   matches int_literal_re tv -> py_int_max_str_digits < zlen tv -> lex_int_literal tv = Crash ValueError.
